@@ -22,7 +22,7 @@ FAULTS = ["absent", "exit1_after_read", "exit1_immediately", "kill_after_read",
           "kill_before_read", "empty_ok", "exit0_without_reading", "slow_ok",
           "partial_then_kill", "partial_then_exit1", "garbage_exit3", "read_some_then_exit1",
           "sigterm_after_read", "midchar_then_exit1", "midchar_then_kill", "midchar_exit0",
-          "echo_then_exit1"]
+          "echo_then_exit1", "halves_slow_ok"]
 DEADLINE_S = 40
 HARD_WATCHDOG_S = 150
 
@@ -75,6 +75,12 @@ def main(tier, replay, t0):
     shaders["big1200.wgsl"] = big_shader(1200)
     for k in (500, 620, 740, 860):
         shaders["bigT%d.wgsl" % k] = big_shader(k)
+    # multi-byte characters at every alignment relative to any power-of-two chunk size: runs of
+    # 3-byte characters with 0/1/2 bytes of padding in front, output above 8 KiB
+    for pad in (0, 1, 2):
+        shaders["uni3_%d.wgsl" % pad] = "//%s%s\n/* %s */\n%s" % (
+            "a" * pad, "\u4e2d\u6587\u5b57" * 3000, "\u00e9\U0001F600" * 2000, big_shader(20))
+        small_names.append("uni3_%d.wgsl" % pad)
     size_classes = {"small": small_names, "large": ["big400.wgsl", "big1200.wgsl"]}
     delays = (0, 50)
     if tier == "thorough":
@@ -261,7 +267,7 @@ def main(tier, replay, t0):
                 continue
             age = time.time() - ts
             budget = DEADLINE_S * (3 if cell.startswith(("real|", "history|")) or "slow_ok" in cell
-                                   else 1)
+                                   or "halves_slow" in cell else 1)
             if age > budget:
                 # classify: blocked (idle CPU, incl. its children) => hang; busy => inconclusive
                 pids = [p.pid] + children_of(p.pid)
